@@ -25,6 +25,7 @@ type SysCfg struct {
 	TZOffsetMin   int    `json:"tz_offset_min"`    // process time zone
 	StartOffsetS  int64  `json:"start_offset_s"`   // simulated seconds after 2000-01-01T00:00:00Z at which the process starts
 	FPType        uint   `json:"fingerprint_type"` // 1 cityhash (default), 0 bernstein
+	Nodes         int    `json:"nodes,omitempty"`  // >1: that many independent ClickHouse nodes are configured (no cluster); requests choose with X-CH-DSN
 }
 
 // Entry is one log line or metric point of the body model.
@@ -56,6 +57,7 @@ type Op struct {
 	Enc      string   `json:"enc,omitempty"`     // honest transfer encoding of the whole body: "" | gzip | snappy (framed stream format)
 	TTLHdr   string   `json:"ttl_hdr,omitempty"` // X-Ttl-Days header value
 	Retry    int      `json:"retry,omitempty"`   // the client sends the same body again (up to that many times) when it is answered 5xx
+	DSN      int      `json:"dsn,omitempty"`     // multi-node runs: 1-based index of the node named in X-CH-DSN; 0 = no header
 }
 
 // Client is an actor issuing operations sequentially.
@@ -166,6 +168,7 @@ func genOp(rt *rapid.T, l string, timerMs int, pool [][][2]string, hostile bool)
 	if op.Hostile == "" && rapid.IntRange(0, 2).Draw(rt, l+".retry?") == 0 {
 		op.Retry = rapid.IntRange(1, 2).Draw(rt, l+".retry")
 	}
+	op.DSN = rapid.SampledFrom([]int{1, 2, 1, 2, 1, 2, 0}).Draw(rt, l+".dsn")
 	return op
 }
 
@@ -183,6 +186,7 @@ func genCfg(rt *rapid.T) SysCfg {
 		TZOffsetMin:   rapid.SampledFrom([]int{0, 0, 840, 330, -300, -720}).Draw(rt, "cfg.tz"),
 		StartOffsetS:  rapid.SampledFrom([]int64{0, 37, 43200, 86400 - 30, 86400 - 3600, 5*3600 - 10, 86400 + 12*3600 - 20}).Draw(rt, "cfg.start"),
 		FPType:        rapid.SampledFrom([]uint{1, 1, 0}).Draw(rt, "cfg.fp"),
+		Nodes:         rapid.SampledFrom([]int{1, 1, 1, 2}).Draw(rt, "cfg.nodes"),
 	}
 }
 
